@@ -146,7 +146,7 @@ def _batch(mod: Any, env: Any, a: Any) -> int:
         cases = []
         for i in chunk:
             rs = core.derive_seed(a.seed, a.check, a.tier, i)
-            cases.append((i, rs, mod.gen_case(rs, a.tier)))
+            cases.append((i, rs, mod.gen_case(rs, a.tier, index=i) if getattr(mod, "GEN_TAKES_INDEX", False) else mod.gen_case(rs, a.tier)))
         if hasattr(mod, "prepare"):
             mod.prepare(env, [c for _, _, c in cases])
         for i, rs, case in cases:
